@@ -53,6 +53,8 @@ type ksCase struct {
 }
 
 func runKS(r *ev.Recorder, c *ksCase) (string, string) {
+	r.Pending(c) // a Sign that never returns is a violation too: the driver re-runs the case alone before saying so
+	defer r.Done()
 	d, err := pu.DilKey(c.Seed)
 	if err != nil {
 		return "keygen/error", err.Error()
@@ -65,6 +67,9 @@ func runKS(r *ev.Recorder, c *ksCase) (string, string) {
 	}
 	if !bytes.Equal(sk[:], ref.SK) {
 		return "sk/mismatch", fmt.Sprintf("secret key differs from the specification at byte %d (rho|key|tr|s1|s2|t0)", firstDiff(sk[:], ref.SK))
+	}
+	for _, e := range pu.KeyEvents(ref) {
+		r.Count("key_boundary_"+e, 1)
 	}
 	for i, m := range c.Msgs {
 		var sig [dilithium.CryptoBytes]byte
